@@ -342,14 +342,15 @@ class World:
         do for their handshake / refresh requests: the socket already calls itself connected, the buffered messages have
         not been flushed yet."""
         cid = len(self.calls)
-        st = dict(step, op="user.send", on_connect=True)
+        want = step.get("when", "connected") == "connected"  # "disconnected": from inside the connected=False callback
+        st = dict(step, op="user.send", on_connect=want, on_disconnect=not want)
         rec = {"id": cid, "op": "user.send", "step": st, "t_call": None, "t_ret": None, "result": None, "exc": None,
                "seq_call": None, "seq_ret": None}
         self.calls.append(rec)
         done = []
 
         async def on_conn(*, connected: bool) -> None:
-            if not connected or done:
+            if connected != want or done:
                 return
             done.append(1)
             rec["t_call"] = self.loop._vtime
